@@ -219,6 +219,18 @@ def observe(m, o):
         m.run(p, solver=o["solver"], rebuild=True, jit=False, **(o.get("kwargs") or {}))
         return {"outputs": [vec(row) for row in m.outputs],
                 "derived": {k2: vec(v) for k2, v in m.derived_outputs.items()}}
+    if k == "rkstep":
+        from jax import numpy as jnp
+        from summer2.runner.jax import ode
+        p = params(o)
+        runner = m.get_runner(p, jit=False)
+        r0 = runner.impl_dict["one_step"](p)
+        gcr = runner.impl_dict["get_comp_rates"]
+        func_ = lambda y, t: gcr(y, t, r0.static_graph_vals, r0.model_data)   # noqa: E731
+        y0 = jnp.array(r0.initial_population) if o.get("x") is None else jnp.array([num(v) for v in o["x"]])
+        t0, dt = jnp.array(num(o["t"])), jnp.array(num(o["dt"]))
+        y1, f1, err, _k = ode.runge_kutta_step(func_, y0, func_(y0, t0), t0, dt)
+        return {"y1": vec(y1), "f1": vec(f1), "err": vec(err)}
     if k == "initpop":
         p = params(o)
         s = m.get_initial_population(p)
